@@ -157,6 +157,8 @@ def call_builtin(engine, st, fr, name, args, kwargs, star, starkw, node):
             yield st, TupleV(list(range(*a)))
         else:
             raise Unsupported("symbolic range")
+    elif name == "id":
+        yield st, Z(Val.id(engine.to_val(st, a[0])), "int")
     elif name == "asyncio.get_event_loop":
         yield st, Z(fresh("loop", Val), "any")
     elif name == "asyncio.wrap_future":
@@ -315,6 +317,19 @@ def call_method(engine, st, fr, recv, mname, args, kwargs, star, starkw, node):
     elif kind == "metric":
         for r in _metric(engine, st, fr, recv, name, a, kwargs, starkw, node):
             yield r
+    elif kind in ("rlock", "lock") and name in ("notify_all", "notify", "wait"):
+        # threading.Condition (modelled as its re-entrant lock): notify_all wakes the threads blocked in wait(); wait releases the
+        # lock, lets other threads run until notified or timed out, and takes the lock again
+        if name == "wait":
+            ev = Event("block", recv=Val.id(recv.t), meth="condition.wait", args=[engine.to_val(st, x) for x in a], site=engine.site(fr, node), held=list(st.held), depth=fr.depth)
+            st.trace.append(ev)
+            if engine.cfg.on_opaque:
+                engine.cfg.on_opaque(engine, st, fr, ev)
+            engine.interfere(st, "block")
+            yield st, Z(fresh("notified", B), "bool")
+        else:
+            st.trace.append(Event("cond-notify", recv=Val.id(recv.t), meth=name, site=engine.site(fr, node), held=list(st.held)))
+            yield st, None
     elif kind == "event":
         for r in _event(engine, st, fr, recv, name, a, kwargs, node):
             yield r
